@@ -313,6 +313,7 @@ func child(t *testing.T) {
 
 func TestC02(t *testing.T) {
 	log.SetOutput(io.Discard)
+	tcpx.InstallSteering() // initial sequence numbers are placed by the scenario
 	run = fw.Start("C02", "fault_enumeration")
 	if fw.IsChild() {
 		child(t)
